@@ -164,7 +164,7 @@ def wOld : List (Ctl CbRule CbSt) := [⟨0, wA, { state := 2, retryAt := 60005, 
 theorem steal_witness :
     (build cbCalc 6 [wA', wA] wOld 1).map (fun c => (c.id, c.rule.id, c.st.state)) = [(1, 2, 0), (2, 1, 0)]
     ∧ (cbCheck 6 wOld).1 = some 1                                   -- without the reload: blocked by rule 1
-    ∧ (cbCheck 6 (build cbCalc 6 [wA', wA] wOld 1)).1 = none        -- after it: admitted
+    ∧ (cbCheck 6 (build cbCalc 6 [wA', wA] wOld 1)).1 = none        -- after it: the request passes
     ∧ (build cbCalc 6 [wA, wA'] wOld 1).map (fun c => (c.id, c.rule.id, c.st.state)) = [(0, 1, 2), (1, 2, 0)] := by
   decide
 
